@@ -214,7 +214,7 @@ PROPS = {
     ),
     "C18": dict(
         lean_targets=["SJ.Props.C18", "SJ.Audit.C18"],
-        configs=dict(quick=["d"], thorough=["d", "po", "ap"]),
+        configs=dict(quick=["d", "ap"], thorough=["d", "po", "ap"]),
         gen_keys=["pointer.", "index.", "partial_eq.", "jsonmacro."],
         rule="pointer: fixed index/escape corpus; every pointer of length <= 5 (thorough 6) over the alphabet /~01a- against a "
              "document with every escape-relevant key; every existing path of random documents in RFC-order, "
@@ -225,7 +225,10 @@ PROPS = {
              "take through every kind of pointer. peq: ten integer types x boundary comparands (MIN, MAX, 0, +-1, 2^k+-1 for "
              "k in 7..64) x 80 values (PosInt/NegInt/Float at every type boundary, strings, bools, null, containers), f64/f32 "
              "comparands incl. NaN, +-0, +-inf, 2^53, 2^63, 2^64, bool, str/String; random value/comparand pairs that are equal, "
-             "adjacent, 2^64 apart or unrelated (default build only; non-trivial: number, string or bool value). json!: 20 fixed "
+             "adjacent, 2^64 apart or unrelated (non-trivial: number, string or bool value); in builds with arbitrary_precision (quick tier: "
+             "this op only) the same comparands against the same values as string-backed numbers plus 80 parsed literals in spellings "
+             "Value::from never produces (-0, 1.0, 1e2, 100.0, 10e1, 0.10, 2^53+1, 2^64, 2^128-1, f32/f64 extremes and midpoints, 1e400, "
+             "1e-400, long fractions) and random number texts of the C20 generator, case lines tagged with the configuration. json!: 20 fixed "
              "and 2000 (thorough 20000) random token trees - depth <= 3, trailing commas, duplicate keys from a 3-key pool, "
              "literal / bare-variable / parenthesised / char keys, interpolated variables of 16 Rust types and compound "
              "expressions - written into a Rust program that is compiled against the tree under check and prints the macro's "
@@ -233,11 +236,20 @@ PROPS = {
         trusted_base=[KERNEL, TIE,
                       "str::split / str::replace / str::parse::<usize> / Vec::get / Map::get / Map::insert / Entry::or_insert / mem::replace modelled by their documented semantics",
                       "Rust `as` casts (integer wrap-around, round-to-nearest-even to floats) and IEEE-754 `==` modelled by their language definition",
+                      "arbitrary_precision accessors: <i64/u64 as FromStr> (from_str_radix grammar) and <f64/f32 as FromStr> (core::num::dec2flt: "
+                      "grammar [+-]?(inf|infinity|nan|digits[.digits][e[+-]digits]); result correctly rounded, overflow to +-inf) by their documented "
+                      "contract - the model rounds the exact decimal value with Spec.Ieee.roundNE64/32 (Model.NumberAp); compared with the crate on every ap case",
                       "rustc's macro-by-example matcher (rule order, `$e:expr` taking one maximal expression, nonterminal look-ahead) modelled as described in Model/JsonMacro.lean; exercised by the generated program"],
         assumptions=["Rust std string, slice and map primitives behave as documented",
                      "an interpolated expression enters the json! model as the Value to_value(&e).unwrap() gives (to_value itself is C15)",
                      "64-bit target (isize = i64, usize = u64)"],
-        partial=["c18_partial_eq / c18_partial_eq_float: default build only (arbitrary_precision accessors parse the literal text; not modelled, not run)",
+        partial=["c18_partial_eq_ap (arbitrary_precision): 'holds that value' is read on the literal - an integer comparand equals exactly the integer "
+                 "literals (no fraction/exponent) of that value; the two builds differ on one literal only, -0, which equals 0 of the signed types and no "
+                 "unsigned 0 under the feature ('-0'.parse::<i64>() = Ok(0), ::<u64>() fails) and equals no integer in the default build (it is a float): "
+                 "c18_partial_eq_ap_differs states this precisely; the inconsistency between 0i64 and 0u64 is inherent to the accessor definitions "
+                 "C20 asks for and is not reported as a finding",
+                 "c18_partial_eq_float_ap: f32 comparands are compared with ONE rounding of the decimal text to binary32 (as_f32 = parse::<f32>), the "
+                 "default build with the f64 rounded again",
                  "c18_partial_eq_float is a transcription-level statement: the float clause is read as IEEE equality after one correctly rounded conversion (so json!(2^53+1) == 2^53 as f64 and json!(1e300) == f32::INFINITY hold); the integer, bool and string clauses are full strength",
                  "c18_json_macro: for token trees that are JSON-shaped (Spec.JsonMacro.shape); what the rules do outside that shape (e.g. json!([,1]) == [1]) is modelled and run but not specified"],
         technique="Lean 4 theorems: models of Value::pointer/pointer_mut/get/get_mut/Index/IndexMut/take, of PartialEq with primitives and of the "
@@ -248,13 +260,17 @@ PROPS = {
                    "get_mut / Index / IndexMut / take = direct container access, insert-if-missing-then-address with panics exactly on the documented "
                    "cases, for every value and probe, both map configurations); c18_partial_eq (for every integer type row of the extracted "
                    "partialeq_numeric! table and every in-range comparand, == is true iff the value is an integer Number holding exactly that integer; "
-                   "bool and strings likewise), c18_partial_eq_float, c18_partial_eq_nan; c18_json_macro (the json_internal! rules applied in source order "
+                   "bool and strings likewise), c18_partial_eq_float, c18_partial_eq_nan; the same under arbitrary_precision over the string-backed "
+                   "Number (Model.PartialEqAp / Model.NumberAp): c18_partial_eq_ap (== an integer iff the literal is an integer literal of that value, "
+                   "unsigned comparands additionally need a literal without minus sign), c18_partial_eq_float_ap (IEEE equality with the nearest finite "
+                   "f64 / f32 of the literal's exact value, nothing when that is not finite), c18_partial_eq_ap_differs; c18_json_macro (the json_internal! rules applied in source order "
                    "to any JSON-shaped token tree build the value the equivalent JSON text parses to: arrays in order, last duplicate key wins) and "
                    "c18_json_rules_tied (the rule list regenerated from src/macros.rs is the transcribed one). All models run against the real crate "
                    "on generated cases every check, json! through a generated program compiled against the tree under check.",
         level_note="Trusted: Lean kernel + propext/Classical.choice/Quot.sound; extract.py; the harness/driver comparison; std primitives, `as` casts and "
                    "rustc's macro matcher modelled by documented semantics. Float comparands: the statement is IEEE equality after conversion (see partial). "
-                   "PartialEq clause not covered under arbitrary_precision. Observation (not a violation of the stated property): json!([,1]) compiles and equals [1].",
+                   "PartialEq under arbitrary_precision is modelled, proved and run (std's str::parse assumed correctly rounded). Observation (not a violation "
+                   "of the stated property): json!([,1]) compiles and equals [1]; under arbitrary_precision the literal -0 equals 0i64 but not 0u64.",
     ),
 }
 
@@ -567,7 +583,7 @@ PROPS["C02"] = dict(
 )
 
 PROPS["C06"] = dict(
-    lean_targets=["SJ.Props.C06", "SJ.Props.C06Int", "SJ.Audit.C06"],
+    lean_targets=["SJ.Props.C06", "SJ.Props.C06Int", "SJ.Props.C06Via", "SJ.Audit.C06"],
     configs=dict(quick=["d", "ap"], thorough=["d", "ap", "fr"]),
     gen_keys=["de."],
     rule="integer literals: every value within +-40 (thorough +-300) of each power of two up to 2^128 and of each type bound, with "
@@ -576,22 +592,45 @@ PROPS["C06"] = dict(
          "integer types via from_str, from_value, Deserialize for &Value, as a quoted map key of a text object and as a key of a "
          "Value map; Number accessors (as_i64/as_u64/as_i128/as_u128/is_*) of the literal; to_string of the integer. "
          "Non-trivial = literal longer than one byte; distinct = distinct lines.",
-    trusted_base=MACHINE_TB + ["serde's primitive integer visitors (range checks) modelled by documented semantics (visitInt)"],
+    trusted_base=MACHINE_TB + ["serde's primitive integer visitors (range checks) modelled by documented semantics (visitInt)",
+                               "hand-written models of the typed text entry points (Model.Typed), of src/value/de.rs + Number's Deserializer impl "
+                               "(Model.FromValue) and of the string-backed Number (Model.NumberAp); all five paths of op int and every accessor of op "
+                               "acc are computed by these models in both configurations and compared with the crate (0 disagreements)",
+                               "<iN/uN as FromStr>::from_str (core::num::from_str_radix): optional + (or - for signed types), at least one digit, "
+                               "nothing else, value must fit - by documented semantics (FromValue.rustParseInt)"],
     assumptions=["a Value cannot hold integers outside [i64::MIN, u64::MAX] nor -0 as an integer without arbitrary_precision: the "
-                 "via-Value clause is judged on representable literals only",
+                 "via-Value clause is judged on representable literals only (now a hypothesis of c06_via_value for the 128-bit targets)",
                  "itoa prints plain decimal digits (checked by the iprint op on every literal)"],
-    partial=["via-Value and map-key paths are tied by correspondence + the property's predicate; only the text path has a Lean model "
-             "(the map-key path runs the same deserialize_number)"],
+    partial=["c06_via_value_ap_partial: under arbitrary_precision the via-Value path (from_value / &Value = lit.parse::<iN>()) equals the "
+             "statement's verdict for every literal and width EXCEPT the literal -0 into i8/i16/i32/i64, where it returns 0 while text and "
+             "both key paths reject (-0 is the float negative zero): the exception is a conjunct of the theorem and is witnessed by the "
+             "kernel-evaluated c06_ap_negative_zero_via_value; open known finding C06-ap-negative-zero-via-value",
+             "c06_via_value (default build): for the 128-bit targets the via-Value clause carries the proviso the statement itself makes - the "
+             "Value must hold the literal as an integer (not -0, within [i64::MIN, u64::MAX]); otherwise the Value is a float and from_value "
+             "returns nothing (proved as the last conjunct)",
+             "the quoted-key clause is proved at MapKey::deserialize_iN (Model.Typed.keyInt on \"lit\" followed by any rest, which is left "
+             "unread); the object around it (hasNextKey, colon, value, end_map) is generic typed-model code and is exercised on the whole "
+             "document {\"lit\":null} by op int (driver field 4 = deTypedTop on that document)"],
     technique="Lean 4 theorems: overflow! guard = mathematical comparison; digit-loop and integer classification for every digit string; "
               "typed deserialisation = value-and-range specification for all ten integer widths, both float configurations; "
-              "accessor laws; boundary-dense differential run over five deserialisation paths",
+              "accessor laws; all five access paths (text, from_value, &Value, quoted key, key of a Value object) as theorems over the "
+              "typed text model, the Value parser model and the value/de.rs model against one specification of the literal's worth; "
+              "boundary-dense differential run over the five paths with every field computed by those models",
     level_text="Machine-checked: c06_typed (for every integer type and every number literal, text deserialisation returns the literal's "
                "mathematical value iff it has no fraction/exponent, is not -0 (8..64-bit) and lies in the type's range; never wraps), "
                "c06_overflow_guard_spec, c06_digit_loop, c06_parse_integer(_intClass), c06_minus_zero, c06_out_of_integer_range, "
-               "c06_accessors (as_* exact or None; is_* iff as_* is Some). The crate is run on boundary-dense literals through text, "
-               "Value (owned and borrowed) and both map-key paths for twelve integer types, plus accessors and printing.",
+               "c06_accessors (as_* exact or None; is_* iff as_* is Some); c06_via_value (default build, both float configurations, every "
+               "source: for every RFC 8259 number literal and each of the ten integer widths, from_str::<T>, the literal as a quoted key of a "
+               "text object, the literal as a key of a Value object, and - whenever the literal parses into a Value - from_value::<T> and "
+               "T::deserialize(&Value) all return Spec.NumberAcc.targetInt of the literal, i.e. the same integer or all reject; 128-bit "
+               "targets through a Value under the representability proviso) and c06_via_value_ap_partial (the same under "
+               "arbitrary_precision for all widths incl. 128 bits without proviso, with the single exception -0 into i8..i64 via Value made "
+               "explicit and witnessed: c06_ap_negative_zero_via_value). The crate is run on boundary-dense literals through text, "
+               "Value (owned and borrowed) and both map-key paths for twelve integer types, plus accessors and printing; all fields are "
+               "computed by the models the theorems are about.",
     level_note="Trusted: Lean kernel + 3 standard axioms; extract.py; harness/driver; Model.Num/TypedInt transcriptions validated by "
-               "correspondence; serde's visitors assumed. One open finding under arbitrary_precision (-0 via Value).",
+               "correspondence; serde's visitors and std's integer FromStr assumed. One open finding under arbitrary_precision (-0 via Value), "
+               "now an explicit, kernel-witnessed exception of c06_via_value_ap_partial.",
 )
 
 PROPS["C20"] = dict(
@@ -605,17 +644,31 @@ PROPS["C20"] = dict(
          "Number and of the Value, pretty, and nested in a document read through a chunked reader; documents of arrays of such "
          "literals with whitespace re-serialised; plus the whole parser input space of C01 (values compared as literal text).",
     trusted_base=MACHINE_TB,
-    assumptions=["as_f64 of an arbitrary-precision Number is str::parse::<f64> (std); the correspondence compares it with Spec.Ieee.roundNE64 of the literal's exact value",
+    assumptions=["as_f64 of an arbitrary-precision Number is str::parse::<f64> (std, core::num::dec2flt), ASSUMED correctly rounded with overflow to +-inf "
+                 "(its documented contract): Model.NumberAp rounds the exact decimal value with Spec.Ieee.roundNE64; the correspondence compares the crate's "
+                 "as_f64 with that model and, independently, with roundNE64 of the literal's exact value. std's exponent accumulator saturates at 65536 "
+                 "digits-worth, irrelevant below 65 000-byte literals",
+                 "<iN/uN as FromStr>::from_str = core::num::from_str_radix(.., 10): optional + (- for signed), digits, in range (documented semantics)",
                  "Number::from_str = number entry point + end-of-input check, modelled as 'parser returns a number and the input has no whitespace'"],
-    partial=["c20_typed_same (typed deserialisation independent of the feature) is C06's c06_typed, which does not mention the feature; "
-             "the accessor clause is checked by correspondence against the literal's exact value"],
+    partial=["c20_typed_same excludes schemas with a Value target inside (there the feature changes the representation of numbers by design); on all "
+             "other schemas the two builds return the same outcome or both fail - they can fail with different errors in one situation only (a number "
+             "where another kind is expected: peek_invalid_type parses it as deserialize_any would, so an out-of-range literal is 'number out of range' "
+             "without the feature and 'invalid type' with it); for numeric targets on number-like input the outcomes are identical "
+             "(c20_typed_number_identical)",
+             "c20_accessors / c18 float clauses rest on the assumption that std's str::parse::<f64/f32> is correctly rounded (trusted base)"],
     technique="Lean 4 theorems derived from parser soundness/completeness: under arbitrary_precision every RFC 8259 number literal parses "
               "to the number whose text is the literal byte for byte; only number literals yield numbers; exhaustive number-alphabet "
               "differential run of Number::from_str and verbatim re-serialisation",
     level_text="Machine-checked: c20_verbatim (for every number literal p, any length and spelling, parsing p.bytes under "
                "arbitrary_precision gives Num.lit p.bytes), c20_nested (the same for a literal anywhere in a document, via the "
                "denotation theorem c02_denotes), c20_from_str_sound (a whitespace-free input that parses to a number is exactly an RFC "
-               "8259 number and is stored unchanged). The crate's as_str/Display/to_string/pretty/nested outputs are compared with the "
+               "8259 number and is stored unchanged), c20_accessors / c20_parsed_accessors (for every stored literal the accessors of the string-backed "
+               "Number computed as the crate computes them - self.n.parse::<i64/u64/i128/u128/f64>() - are: the exact integer value iff the literal has no "
+               "fraction/exponent and fits, unsigned ones None on any minus sign; as_f64 = Spec.Ieee.roundNE64 of the exact rational value, None iff "
+               "that overflows; is_* iff as_* is Some; is_f64 iff fraction/exponent present and finite), c20_as_f32, c20_typed_same / "
+               "c20_typed_same_value / c20_typed_number_identical (the typed text deserializer model returns the same outcome with and without the "
+               "feature for every schema without a Value target and every input, or fails in both; identical outcomes for numeric targets). "
+               "The crate's as_str/Display/to_string/pretty/nested outputs are compared with the "
                "literal on random, boundary and 1000-digit literals; Number::from_str is run on every string of length <= 5-6 over the "
                "number alphabet against the grammar.",
     level_note="Trusted: Lean kernel + 3 standard axioms; extract.py; harness/driver; machine model. A genuine defect (-0 stored as 0) was "
